@@ -10,6 +10,7 @@ import Mahotas.Proofs.C14Hitmiss
 import Mahotas.Proofs.C14Centre
 import Mahotas.Proofs.C14RegSpec
 import Mahotas.Proofs.C14HolesSpec
+import Mahotas.Proofs.C14Order
 import Mahotas.Proofs.C01Dispatch
 open Mahotas Mahotas.C14
 
@@ -526,3 +527,24 @@ theorem C14_hitmiss_reads_inside (A : Img Int) (bshape : List Nat) (bc : Array I
 example : hmEvaluated [3, 3] [2, 2] [1, 2] = true ∧ hmEvaluated [3, 3] [2, 2] [2, 2] = false ∧
     (hmEntries [2, 2] #[1, 1, 1, 1]).map (fun e => addPos [1, 2] e.1) = [[0, 1], [0, 2], [1, 1], [1, 2]] := by
   decide
+
+/-- **only the order of the pixel values matters** — the soundness of the harness's float embedding. For every
+strictly increasing re-labelling `f` of the values, every image (`data` of the size of the shape), and every
+neighbourhood whose offsets have the rank of the image: the models of `locmax`/`locmin` and of `regmax`/`regmin`
+return the same arrays on the re-labelled image `mapImg f A` as on `A` (the kernels only ever compare two pixel
+values with `<`, `>`, `<=`, `>=`). Hence feeding a float image through the order isomorphism
+`x ↦ sign(x)·bits(|x|)` (NaN excluded) or through any other order-preserving integer labelling gives the same
+model output, and the result for integer images does not depend on the dtype's value range. -/
+theorem C14_order_embedding_invariant (f : Int → Int) (hf : ∀ a b : Int, a < b → f a < f b) (isMin : Bool)
+    (A : Img Int) (hwf : A.data.size = shapeSize A.shape) (nb : List (List Int))
+    (hlen : ∀ k ∈ nb, k.length = A.shape.length) :
+    locModel isMin (mapImg f A) nb = locModel isMin A nb ∧
+    regModel isMin (mapImg f A) nb = regModel isMin A nb :=
+  ⟨locModel_mapImg f hf isMin A hwf nb hlen, regModel_mapImg f hf isMin A hwf nb hlen⟩
+
+/-- re-labelling 0,1,2 as −7, 40, 41 keeps the regional maxima of the 2×3 example -/
+example :
+    let A : Img Int := { shape := [2, 3], data := #[2, 2, 1, 0, 1, 2] }
+    let B : Img Int := { shape := [2, 3], data := #[41, 41, 40, -7, 40, 41] }
+    (regModel false B (neighbours [3, 3] (C01.crossElem 2 1))).toList =
+      (regModel false A (neighbours [3, 3] (C01.crossElem 2 1))).toList := by decide
